@@ -117,16 +117,17 @@ def trigF04a (rows : List Row) (spec : Tree) : Bool :=
 def firstTok (t : Tree) : Option Tok := t.yield.head?
 
 def isUnaryLookupTok : Option Tok → Bool
-  | some (.atom k _) => decide (4 ≤ k)
+  | some (.atom k _) => decide (4 ≤ k) && decide (k ≤ 6)
   | _ => false
 
 /-- F04d trigger: the W3C derivation has a path step whose left operand is a postfix / unary lookup (3.1), or
-whose right operand starts with a variable reference (2.0) or a unary lookup (3.1).  (The 1.0 case — left
-operand a parenthesised expression — was repaired in /repo and is no longer part of the trigger.) -/
+whose right operand starts with a variable reference (2.0) or a unary lookup (3.1).  or (1.0) whose left operand is a static function call (`id('a')/b`; repaired on branch fix-c04-2).  (The 1.0 case
+"left operand a parenthesised expression" was repaired in /repo and is no longer part of the trigger.) -/
 def trigF04d (ver : Nat) (rows : List Row) (spec : Tree) : Bool :=
   anyNode (fun t => match t with
     | .bin o l r => isPath (some (symOf rows o)) &&
-        ((ver == 31 && (binSym rows l == some "?" || (match l with | .atom k _ => decide (4 ≤ k) | _ => false) ||
+        ((ver == 10 && (match l with | .atom 10 _ => true | _ => false)) ||
+         (ver == 31 && (binSym rows l == some "?" || (match l with | .atom k _ => decide (4 ≤ k) && decide (k ≤ 6) | _ => false) ||
             isUnaryLookupTok (firstTok r))) ||
          (ver == 20 && (match firstTok r with | some (.atom 2 _) => true | _ => false)))
     | _ => false) spec
